@@ -295,12 +295,14 @@ static const short *plain_audio (const Container *c, int sub, int ch)
 }
 
 /* run a script; late = number of actions applied after the first audio write (0: all before) */
+static int c12_mode = SFM_WRITE ;	/* SFM_RDWR on a new, empty file is also "opened for writing" */
+
 static void run_script (const Container *c, int sub, int ch, const Action *acts, int nacts, int late, const char *rs)
 {	SF_INFO info ; SNDFILE *sf ; Meta m ; int rc, accepted [8] ; static short ref_audio [NFRAMES * 8], got_audio [NFRAMES * 8] ; short *au = audio (ch) ;
 	memcpy (ref_audio, plain_audio (c, sub, ch), sizeof (ref_audio)) ;
 	memset (&m, 0, sizeof (m)) ;
 	md_reset (&dev) ; memset (&info, 0, sizeof (info)) ; info.format = c->major | sub ; info.channels = ch ; info.samplerate = 44100 ;
-	sf = md_open (&dev, SFM_WRITE, &info) ;
+	sf = md_open (&dev, c12_mode, &info) ;
 	if (! sf) { vl_note ("open refused: %s", sf_strerror (NULL)) ; return ; }
 	for (int i = 0 ; i < nacts - late ; i++) { accepted [i] = apply (sf, c, &acts [i], &m, ch) ; vl_note ("set %s -> %d", kind_name [acts [i].kind], accepted [i]) ; }
 	if (vl_write (sf, T_SHORT, 1, au, late ? 7 : NFRAMES) != (late ? 7 : NFRAMES)) vl_violation (rt_sig ("%s|write-failed", rs), "audio write failed after setting metadata: %s", sf_strerror (sf)) ;
@@ -407,6 +409,19 @@ static void run_c12 (void)
 							vl_root_count (c->name) ; run_script (c, sub, ch, acts, 3, 1, rs) ; vl_end (supported (c, &acts [0]), 0) ;
 							}
 					}
+			/* (5) a new file created with SFM_RDWR: every kind, before the data and after the first write, and set again */
+			for (int kind = 0 ; kind < K_NKINDS ; kind++)
+				for (int sidx = 0 ; sidx < (kind == K_STR ? NSTR : 1) ; sidx++)
+					for (int when = 0 ; when < 3 ; when++)
+						if (vl_case ("C12 rdwr-new fmt=%s/%s kind=%s%s%s when=%s", c->name, sub_name (sub), kind_name [kind], kind == K_STR ? ":" : "", kind == K_STR ? str_names [sidx] : "", when == 0 ? "before-data" : when == 1 ? "after-data" : "again"))
+						{	int other = (kind == K_STR && str_types [sidx] == SF_STR_TITLE) ? 1 : 0 ; int ch = 2, map [8] ; char rs2 [80] ;
+							Action acts [3] = { { kind, sidx, kind == K_STR ? (str_types [sidx] == SF_STR_SOFTWARE ? 1 : 3) : 0 }, { K_STR, other, 4 }, { kind, sidx, 2 } } ;	/* 127 then 3 bytes of text (software: short values only, see above); shortest then longest variable part */
+							if (kind == K_CHMAP) make_chmap (map, 0, c, &ch) ;
+							snprintf (rs2, sizeof (rs2), "%s|rdwr-new", rs) ;
+							vl_root_count (c->name) ; c12_mode = SFM_RDWR ;
+							if (when == 0) run_script (c, sub, ch, acts, 2, 0, rs2) ; else if (when == 1) run_script (c, sub, ch, acts + 1, 2, 1, rs2) ; else run_script (c, sub, ch, acts, 3, 1, rs2) ;
+							c12_mode = SFM_WRITE ; vl_end (supported (c, &acts [0]), 0) ;
+							}
 			if (vl_case ("C12 replace fmt=%s/%s", c->name, sub_name (sub)))
 			{	Action acts [4] = { { K_STR, 0, 3 }, { K_BEXT, 0, 1 }, { K_STR, 0, 5 }, { K_BEXT, 0, 4 } } ;
 				vl_root_count (c->name) ; run_script (c, sub, 2, acts, 4, 0, rs) ; vl_end (1, 0) ;
